@@ -77,10 +77,48 @@ def order_nontrivial(req, A, B):
 PROPS = {
     "C01": dict(
         level="proof",
-        modules=["Exmex.Props.C01"],
+        modules=["Exmex.Props.C01", "Exmex.Props.C01Parse", "Exmex.Props.C14"],
+        theorems=["Exmex.C01.flat_eval_eq_denote", "Exmex.C01.parseWoCompile_eval_eq_denote", "Exmex.C01.parse_eval_eq_denote",
+                  "Exmex.C01.checkPre_toks", "Exmex.C01.findVars_toks", "Exmex.C14.evalNumbers_any_order"],
         rule="random operator tables x random well-formed chains x random renderings; non-trivial = at least two binary operators; distinct by hash of the request (table, text)",
         kinds=[dict(kind="flat", quick=24000, thorough=1200000,
-                    corr=["wo", "vars", "nwo"], oracle=[("wo_nf", "spec_nf"), ("vars", "svars")],
+                    corr=["wo", "vars", "nwo", "toksimpl"], oracle=[("wo_nf", "spec_nf"), ("vars", "svars"), ("toksimpl", "stoks")],
+                    guards=["render", "toks", "flatspec"], nontrivial=flat_nontrivial)],
+    ),
+    "C02": dict(
+        level="proof",
+        modules=["Exmex.Props.C02", "Exmex.Props.C01Parse"],
+        theorems=["Exmex.C02.evalCloning_eq_split", "Exmex.C02.compile_sound", "Exmex.C02.compile_twice_sound", "Exmex.C01.parse_eval_eq_denote"],
+        rule="literal-rich random chains (60-90% literals, constants, unary over literals) x random tables: parse, parse_wo_compile, compile() once more, DeepEx::parse, all evaluated on symbolic variables and compared with the documented value modulo re-association of flagged operators; node counts compared with the model (folding must happen where the model folds); non-trivial = at least two binary operators; distinct by request hash",
+        kinds=[dict(kind="flat", quick=20000, thorough=1000000, args=["lits"],
+                    corr=["wo", "nwo", "c", "nc", "rc", "vars"],
+                    oracle=[("wo_nf", "spec_nf"), ("c_nf", "spec_nf"), ("rc_nf", "spec_nf")],
+                    guards=["render", "toks"], nontrivial=flat_nontrivial),
+               dict(kind="forms", quick=10000, thorough=300000, args=["lits"],
+                    corr=["f", "d", "dtext", "fvars", "dvars"], oracle=[("f_nf", "spec_nf"), ("d_nf", "spec_nf")],
+                    guards=["render", "toks"], nontrivial=flat_nontrivial)],
+    ),
+    "C03": dict(
+        level="proof",
+        modules=["Exmex.Props.C02"],
+        rule="random chains x tables x renderings: FlatEx::parse, DeepEx::parse, to_deepex, from_deepex and random conversion histories of length 0..6; variable lists and symbolic values compared with the documented value; operator listings of both forms checked to be sorted, duplicate-free, to contain every operator applied to a variable-dependent operand and nothing absent from the text; non-trivial = at least two binary operators; distinct by request hash",
+        kinds=[dict(kind="forms", quick=24000, thorough=800000,
+                    corr=["f", "d", "f2d", "d2f", "h", "fvars", "dvars", "f2dvars", "d2fvars", "hvars", "br", "ur", "or", "dbr", "dur", "dor", "dtext", "f2dtext", "htext"],
+                    oracle=[("f_nf", "spec_nf"), ("d_nf", "spec_nf"), ("f2d_nf", "spec_nf"), ("d2f_nf", "spec_nf"), ("h_nf", "spec_nf"),
+                            ("fvars", "svars"), ("dvars", "svars"), ("f2dvars", "svars"), ("d2fvars", "svars"), ("hvars", "svars"),
+                            ("br", "sbr_lo", [], "superset"), ("br", "sbr_hi", [], "subset"), ("dbr", "sbr_lo", [], "superset"), ("dbr", "sbr_hi", [], "subset"),
+                            ("ur", "sur_lo", [], "superset"), ("ur", "sur_hi", [], "subset"), ("dur", "sur_lo", [], "superset"), ("dur", "sur_hi", [], "subset"),
+                            ("or", "sor_lo", [], "superset"), ("or", "sor_hi", [], "subset"), ("dor", "sor_lo", [], "superset"), ("dor", "sor_hi", [], "subset")],
+                    guards=["render", "toks"], nontrivial=flat_nontrivial)],
+    ),
+    "C12": dict(
+        level="proof",
+        modules=["Exmex.Props.C02"],
+        rule="random chains x tables: FlatEx::unparse must be the text parsed; the text printed by DeepEx (parsed, or reached through conversion histories) is re-parsed as a flat expression and must have the same variables and symbolic value; serde_json round trip of flat expressions derived from deep ones; judged for tables whose printed form lexes unambiguously (lexSafe); non-trivial = at least two binary operators; distinct by request hash",
+        kinds=[dict(kind="forms", quick=20000, thorough=600000,
+                    corr=["fu", "dtext", "rt", "rtvars", "htext", "sj", "sjvars"],
+                    oracle=[("fu", "stext"), ("rt_nf", "spec_nf", ["lexsafe"]), ("rtvars", "svars", ["lexsafe"]),
+                            ("sj_nf", "spec_nf", ["lexsafe"]), ("sjvars", "svars", ["lexsafe"])],
                     guards=["render", "toks"], nontrivial=flat_nontrivial)],
     ),
     "C04": dict(
